@@ -877,6 +877,125 @@ Section OpFacts.
     eexists. split; [reflexivity|].
     apply rep3_erase; auto.
   Qed.
+
+  (* ---- do_dynamic_age: the loop ---- *)
+  Lemma age_loop_ref now : forall rest_e rest (l : lfdl K V) (s : lf K V) moved moved_e free fuel aged,
+    rep3 l s (rest ++ moved) free ->
+    lf_ents s = rest_e ++ moved_e -> List.length rest = List.length rest_e ->
+    Forall (fun x => stampof x = now) moved_e -> (0 <= lf_tick s)%Z ->
+    List.length rest < fuel ->
+    exists l' used',
+      dl_age_loop fuel l (l_begin (moved ++ free)) now aged
+        = Ok (l', snd (lf_age_loop now (lf_tick s) (lf_rnum s) (lf_rk s) rest_e (lf_ord s) moved_e aged)) /\
+      rep3 l' (lf_with s (snd (fst (lf_age_loop now (lf_tick s) (lf_rnum s) (lf_rk s) rest_e (lf_ord s) moved_e aged)))
+                         (fst (fst (lf_age_loop now (lf_tick s) (lf_rnum s) (lf_rk s) rest_e (lf_ord s) moved_e aged))))
+           used' free.
+  Proof.
+    induction rest_e as [|[k [v a]] re IH]; intros rest l s moved moved_e free fuel aged R E L F T Hf.
+    - destruct rest as [|x r]; [|discriminate]. simpl app in *. simpl lf_age_loop. cbn [fst snd].
+      destruct fuel as [|f]; [lia|]. cbn [dl_age_loop].
+      destruct moved as [|m mv].
+      + assert (B : iter_eqb (l_begin (dl_list l)) (dl_end l) = true).
+        { rewrite (r_list _ _ _ _ R), (r_end _ _ _ _ R). simpl. apply iter_eqb_refl. }
+        rewrite B. exists l, []. split; [reflexivity|]. rewrite <- E, lf_with_id. exact R.
+      + assert (Im : In m (m :: mv)) by (left; reflexivity).
+        assert (B : l_begin (dl_list l) = It m) by (rewrite (r_list _ _ _ _ R); reflexivity).
+        assert (B2 : iter_eqb (It m) (dl_end l) = false).
+        { rewrite (r_end _ _ _ _ R). apply iter_eqb_neq. intros X.
+          apply (nodup_sep _ _ (r_nd _ _ _ _ R) m Im). auto. }
+        destruct (used_cell _ _ _ _ _ R Im) as (k & v & a & Ec & Ei & Ie).
+        assert (Il : In m (dl_list l)) by (rewrite (r_list _ _ _ _ R); apply in_or_app; auto).
+        rewrite B, B2, (dcell_of_ok l m _ Il Ec). cbn [bind mkcell dc_age].
+        assert (Ea : a = now).
+        { rewrite E in Ie. rewrite Forall_forall in F. apply (F _ Ie). }
+        assert (B3 : (a + ms (dl_tick l) <? now)%Z = false).
+        { rewrite (r_tick _ _ _ _ R), Ea. apply Z.ltb_ge. unfold ms. lia. }
+        rewrite B3. exists l, (m :: mv). split; [reflexivity|]. rewrite <- E, lf_with_id. exact R.
+    - destruct rest as [|x r]; [discriminate|]. simpl in L. injection L as L.
+      assert (Ix : In x ((x :: r) ++ moved)) by (left; reflexivity).
+      pose proof (r_ents _ _ _ _ R) as HE. rewrite E in HE. simpl in HE. injection HE as HE1 HE2.
+      destruct (ef_inv _ _ _ _ _ HE1) as (lf & Ec0).
+      assert (Kn : kf (dl_cells l) x = Some k) by (rewrite (kf_cell _ _ _ Ec0); reflexivity).
+      destruct (used_key _ _ _ _ _ _ R Ix Kn) as (v1 & a1 & Ec & Ei & Ie).
+      assert (Eva : v1 = v /\ a1 = a).
+      { pose proof (ef_mkcell _ _ _ _ _ _ Ec) as X. rewrite HE1 in X. inversion X; auto. }
+      destruct Eva as [Ev Ea]. subst v1 a1. clear Ec0 lf.
+      destruct (rep3_count _ _ _ _ _ _ R Ix Kn) as (c & Em & Ea2).
+      assert (Il : In x (dl_list l)) by (rewrite (r_list _ _ _ _ R); apply in_or_app; auto).
+      assert (B : l_begin (dl_list l) = It x) by (rewrite (r_list _ _ _ _ R); reflexivity).
+      assert (B2 : iter_eqb (It x) (dl_end l) = false).
+      { rewrite (r_end _ _ _ _ R). apply iter_eqb_neq. intros X.
+        apply (nodup_sep _ _ (r_nd _ _ _ _ R) x Ix). auto. }
+      assert (B3 : (a + ms (dl_tick l) <? now)%Z = (a + ms (lf_tick s) <? now)%Z)
+        by (rewrite (r_tick _ _ _ _ R); reflexivity).
+      destruct fuel as [|f]; [lia|]. cbn [dl_age_loop].
+      rewrite B, B2, (dcell_of_ok l x _ Il Ec). cbn [bind mkcell dc_age dc_lfu dc_keyed dc_val].
+      rewrite B3. simpl lf_age_loop.
+      destruct (a + ms (lf_tick s) <? now)%Z eqn:EP.
+      + pose proof (r_nd _ _ _ _ R) as N. rewrite <- app_assoc in N.
+        assert (SP : (if iter_eqb (It x) (l_begin (moved ++ free)) then Ok (dl_list l)
+                      else l_splice (dl_list l) (l_begin (moved ++ free)) (It x))
+                     = Ok ((r ++ x :: moved) ++ free)).
+        { rewrite iter_eqb_neq.
+          - rewrite (r_list _ _ _ _ R), <- app_assoc.
+            rewrite (l_splice_end (x :: r) (moved ++ free) x N (or_introl eq_refl)).
+            simpl remove_nat. rewrite Nat.eqb_refl. rewrite <- app_assoc. reflexivity.
+          - intros X. apply (nodup_sep _ _ N x (or_introl eq_refl)). auto. }
+        rewrite SP. cbn [bind]. unfold mm_deref, mm_erase. rewrite Em. cbn [bind].
+        assert (Hn : x < List.length (dl_cells l)) by (apply nth_error_Some; congruence).
+        rewrite vset_ok by exact Hn. cbn [bind].
+        rewrite Ea2.
+        assert (B4 : scale (dl_rnum l) (dl_rk l) c = scale (lf_rnum s) (lf_rk s) c)
+          by (rewrite (r_rnum _ _ _ _ R), (r_rk _ _ _ _ R); reflexivity).
+        rewrite B4.
+        set (s1 := lf_with s (ord_insert (scale (lf_rnum s) (lf_rk s) c) k (rem2 k (lf_ord s)))
+                           (re ++ (k, (v, now)) :: moved_e)).
+        match goal with |- context [dl_age_loop f ?l1 _ _ _] =>
+          assert (R1 : rep3 l1 s1 (r ++ x :: moved) free) end.
+        { unfold s1.
+          apply (rep3_refile l s ((x :: r) ++ moved) free x k _ _ (r ++ x :: moved) _ _ R Ix Kn).
+          - symmetry. simpl. apply Permutation_middle.
+          - reflexivity.
+          - rewrite upd_nth_len. exact (r_clen _ _ _ _ R).
+          - exists now, v. apply nth_error_upd_eq. exact Hn.
+          - intros m Nm. apply nth_error_upd_neq. exact Nm.
+          - pose proof (r_nd _ _ _ _ R) as N0. simpl in N0. inversion N0 as [|y q Hni Hnd]; subst.
+            assert (EX : forall m, In m (r ++ moved) ->
+                         ef (upd_nth x (mkcell k x now v) (dl_cells l)) m = ef (dl_cells l) m).
+            { intros m Im. apply ef_ext. apply nth_error_upd_neq. intros Emx; subst m.
+              apply Hni. apply in_or_app; auto. }
+            destruct (reads_split _ _ _ _ _ HE2 L) as [Ha Hb].
+            rewrite !map_app. simpl map. f_equal; [|f_equal].
+            + rewrite <- Ha. apply map_ext_in. intros m Im. apply EX. apply in_or_app; auto.
+            + f_equal. eapply ef_mkcell. apply nth_error_upd_eq. exact Hn.
+            + rewrite <- Hb. apply map_ext_in. intros m Im. apply EX. apply in_or_app; auto. }
+        assert (F' : Forall (fun y : K * (V * Z) => stampof y = now) ((k, (v, now)) :: moved_e))
+          by (constructor; auto).
+        assert (Hf' : List.length r < f) by (simpl in Hf; lia).
+        destruct (IH r _ s1 (x :: moved) ((k, (v, now)) :: moved_e) free f (S aged) R1 eq_refl L F' T Hf')
+          as (l' & u' & D & R').
+        exists l', u'. split; [exact D|exact R'].
+      + exists l, ((x :: r) ++ moved). split; [reflexivity|].
+        cbn [fst snd]. change ((k, (v, a)) :: re ++ moved_e) with (((k, (v, a)) :: re) ++ moved_e).
+        rewrite <- E, lf_with_id. exact R.
+  Qed.
+
+  Lemma dyn_age_ref (l : lfdl K V) (s : lf K V) used free now :
+    rep3 l s used free -> (0 <= lf_tick s)%Z ->
+    exists l' used', dl_dynamic_age l now = Ok (l', snd (lf_dyn_age s now)) /\
+                     rep3 l' (fst (lf_dyn_age s now)) used' free.
+  Proof.
+    intros R T. unfold dl_dynamic_age, lf_dyn_age.
+    assert (R0 : rep3 l s (used ++ []) free) by (rewrite app_nil_r; exact R).
+    assert (E0 : lf_ents s = lf_ents s ++ []) by (rewrite app_nil_r; reflexivity).
+    assert (Hf : List.length used < S (List.length (dl_list l))).
+    { rewrite (r_list _ _ _ _ R), app_length. lia. }
+    destruct (age_loop_ref now (lf_ents s) used l s [] [] free (S (List.length (dl_list l))) 0
+                R0 E0 (rep3_len _ _ _ _ R) (Forall_nil _) T Hf) as (l' & u' & D & R').
+    simpl app in D. rewrite <- (r_end _ _ _ _ R) in D.
+    destruct (lf_age_loop now (lf_tick s) (lf_rnum s) (lf_rk s) (lf_ents s) (lf_ord s) [] 0) as [[e o] n].
+    cbn [fst snd] in *. exists l', u'. split; [exact D|exact R'].
+  Qed.
 End OpFacts.
 
 Section LfudaLitFacts.
